@@ -7,7 +7,8 @@
    branch; [quirk n] = the same code with the n-th repaired defect switched back on. *)
 From Coq Require Import String.
 From SV Require Import Model.Common Model.ConfigTemplate Model.ConfigExtractor Model.Config Spec.ConfigSpec
-  Proofs.ConfigTemplateProofs Proofs.ConfigExtractorProofs Proofs.ConfigProofs Proofs.ConfigWitnesses.
+  Proofs.ConfigTemplateProofs Proofs.ConfigExtractorProofs Proofs.ConfigProofs Proofs.ConfigWitnesses
+  Model.ConfigHolder Spec.ConfigHolderSpec Proofs.ConfigHolderProofs.
 Open Scope string_scope.
 Open Scope Z_scope.
 
@@ -184,3 +185,78 @@ Theorem C16_original_code_refuted :
                    Z.of_nat (length f) = pl_nfields p /\ run_record x_trivial p 0 f = Panic s).
 Proof. exact original_refuted. Qed.
 Print Assumptions C16_original_code_refuted.
+
+(* ---- the config holder: how every typed component (input, orchestration, transform and nested step, buffer,
+        output, rewriter) is decoded from its YAML node (Model/ConfigHolder.v) ---- *)
+
+(* ConfigHolder.UnmarshalYAML never panics: for EVERY node - scalar, sequence, mapping with 0, 1, 2, ... children,
+   whatever the children are - every table of registered types and every answer of the struct decoder, the result
+   is a type name or an error value.  (value.Content[i] is a checked access in the model.) *)
+Theorem C16_holder_never_panics : forall table dec n, is_panic (holder_unmarshal table dec n) = false.
+Proof. exact holder_total. Qed.
+Print Assumptions C16_holder_never_panics.
+
+(* ... also as yaml.v3 reaches it: through an alias (to any node), and not at all for a null node *)
+Theorem C16_holder_site_never_panics : forall table dec n, is_panic (site_decode table dec n) = false.
+Proof. exact site_decode_total. Qed.
+Print Assumptions C16_holder_site_never_panics.
+
+(* ... hence at every node of every document, at every depth, whichever of them are component sites *)
+Theorem C16_holder_every_document_node :
+  forall table dec d, Forall (fun s => is_panic (site_decode table dec s) = false) (subnodes d).
+Proof. exact every_site_total. Qed.
+Print Assumptions C16_holder_every_document_node.
+
+(* accepted = exactly the nodes with at least two children whose first is the scalar "type", whose second's value
+   is a registered type and which decode into that type's struct (Spec/ConfigHolderSpec.v) *)
+Theorem C16_holder_accepts_exactly :
+  forall table dec n ty, holder_unmarshal table dec n = Ok ty <-> holder_accepts table dec n ty.
+Proof. exact holder_spec. Qed.
+Print Assumptions C16_holder_accepts_exactly.
+
+(* ... and every other node is rejected with an error value *)
+Theorem C16_holder_rejects_cleanly :
+  forall table dec n, (forall ty, ~ holder_accepts table dec n ty) -> exists e, holder_unmarshal table dec n = Err e.
+Proof. exact holder_rejects_cleanly. Qed.
+Print Assumptions C16_holder_rejects_cleanly.
+
+(* the guard in front of Content[0] is load-bearing, and exactly so: with an ARBITRARY predicate on nodes in its
+   place, UnmarshalYAML is panic-free for all inputs if and only if the predicate lets through no node without
+   children and no one-child node whose child is the scalar "type" *)
+Theorem C16_holder_guard_exact :
+  forall guard, (forall table dec n, is_panic (holder_with guard table dec n) = false) <-> guard_safe guard.
+Proof. exact guard_exact. Qed.
+Print Assumptions C16_holder_guard_exact.
+
+(* variant "must be a mapping" (kind check instead of the length check): refuted by the empty mapping {} - directly
+   and through an alias - which the code rejects with an error value *)
+Theorem C16_holder_kind_guard_variant_refuted :
+  ~ guard_safe kind_guard /\
+  forall table dec,
+    holder_with kind_guard table dec y_empty_mapping = Panic site_holder_index /\
+    site_decode_with kind_guard table dec y_alias_empty = Panic site_holder_index /\
+    (exists e, holder_unmarshal table dec y_empty_mapping = Err e) /\
+    (exists e, site_decode table dec y_alias_empty = Err e).
+Proof. exact kind_guard_refuted. Qed.
+Print Assumptions C16_holder_kind_guard_variant_refuted.
+
+(* variant "must not be empty" (len < 1): refuted by the sequence [type] *)
+Theorem C16_holder_len1_guard_variant_refuted :
+  ~ guard_safe len1_guard /\
+  forall table dec,
+    holder_with len1_guard table dec y_seq_type = Panic site_holder_index /\
+    (exists e, holder_unmarshal table dec y_seq_type = Err e).
+Proof. exact len1_guard_refuted. Qed.
+Print Assumptions C16_holder_len1_guard_variant_refuted.
+
+(* non-vacuity: {type: unescape, key: log} is accepted, directly and through an alias; null leaves the holder
+   untouched; the same node is an error value when the decoder refuses it or the type is not registered *)
+Theorem C16_holder_example :
+  holder_unmarshal [s_unescape_ty] (fun _ _ => true) y_unescape = Ok s_unescape_ty /\
+  holder_accepts [s_unescape_ty] (fun _ _ => true) y_unescape s_unescape_ty /\
+  site_decode [s_unescape_ty] (fun _ _ => true) (YNode KAlias [] [117]%N [y_unescape]) = Ok (HType s_unescape_ty) /\
+  site_decode [s_unescape_ty] (fun _ _ => true) y_null = Ok HNil /\
+  (exists e, holder_unmarshal [s_unescape_ty] (fun _ _ => false) y_unescape = Err e) /\
+  (exists e, holder_unmarshal [] (fun _ _ => true) y_unescape = Err e).
+Proof. exact holder_example. Qed.
+Print Assumptions C16_holder_example.
